@@ -8,6 +8,7 @@
 #include <etl/_cstddef/size_t.hpp>
 #include <etl/_math/abs.hpp>
 #include <etl/_math/idiv.hpp>
+#include <etl/_numeric/abs.hpp>
 #include <etl/_type_traits/is_signed.hpp>
 
 namespace etl::strings {
